@@ -288,10 +288,12 @@ theorem readCommands_sim (wo' : WordOracle) (window window' : Nat) (hw : window 
         exact readCommands_sim wo' window window' hw p hp a np nd lit cmd dist mlen f (done + ins + n) s2.out
           s2.ring ρ2' b2 s1 r g2 hc
 
-/-- one `match … with | none => none | some … =>` level of a reader, on the lone run `hc` and on the goal -/
+-- one `match … with | none => none | some … =>` level of a reader, on the lone run `hc` and on the goal
+set_option hygiene false in
 local macro "mstep" : tactic =>
   `(tactic| (split at hc; (· exact absurd hc (by simp)); rename_i heq; simp only [heq]))
-/-- one `if … then none else` level -/
+-- one `if … then none else` level
+set_option hygiene false in
 local macro "istep" : tactic =>
   `(tactic| (split at hc; (· exact absurd hc (by simp)); rename_i heq; rw [if_neg heq]))
 
@@ -303,7 +305,13 @@ theorem readCompressedBody_sim (wo' : WordOracle) (window window' : Nat) (hw : w
     ∃ ρ1', readCompressedBody wo' window' large mlen ⟨a ++ o, ρ'⟩ bs = some (⟨a ++ s1.out, ρ1'⟩, r) ∧
       RingRel p s1.ring ρ1' := by
   unfold readCompressedBody at hc ⊢
-  mstep; istep; mstep; istep; mstep; istep; mstep; mstep
+  mstep; istep
+  split at hc
+  · exact absurd hc (by simp)
+  rename_i heq
+  rw [heq]
+  trace_state
+  mstep; istep; mstep; istep; mstep; mstep
   dsimp only at hc ⊢
   mstep; mstep; istep; mstep; istep; mstep; mstep; mstep
   exact readCommands_sim wo' window window' hw p hp a _ _ _ _ _ mlen _ _ o ρ ρ' _ s1 r h hc
